@@ -30,6 +30,8 @@ const (
 	InterfaceFieldsBuild
 	UnionTypesBuild
 	InputObjectFieldsBuild
+	PlanCacheFingerprint
+	PlanCacheNormalize
 	NumSites
 )
 
@@ -60,4 +62,6 @@ var SiteNames = [NumSites]string{
 	"interface.fields.build",
 	"union.types.build",
 	"inputobject.fields.build",
+	"plancache.fingerprint",
+	"plancache.normalize",
 }
